@@ -497,6 +497,11 @@ class Message:
             raise error.UnexpectedBlock2("Response code changed during Block2 transfer")
         if not block2.is_valid_for_payload_size(len(next_block.payload)):
             raise error.UnexpectedBlock2("Payload size does not match Block2")
+        if block2.more and not next_block.payload:
+            # A BERT block may carry any number of KiB; with none of them
+            # the transfer would not advance, and the same block would be
+            # requested again.
+            raise error.UnexpectedBlock2("Non-final block without payload")
         if block2.start != len(self.payload):
             # Does not need to be implemented as long as the requesting code
             # sequentially clocks out data
